@@ -90,7 +90,9 @@ def generate(prng, tier, index):
             ops.append([op, 0])
     pol = prng.choice(({"int": "uniform"}, {"int": "min"}, {"int": "max"}, {"int": "sticky"},
                        {"int": "mix", "p": 0.5}))
-    return {"variant": variant, "universe": uni, "ops": ops, "policy": pol, "max_faults": prng.choice((1, 2, 3))}
+    return {"variant": variant, "universe": uni, "ops": ops, "policy": pol, "max_faults": prng.choice((1, 2, 3)),
+            # when the harness itself iterates the set: after every operation, or only at the history's own iterate operations
+            "observe": prng.choice(("every", "sparse"))}
 
 
 _NAN, _NAN2 = float("nan"), float("nan")
@@ -110,11 +112,14 @@ def _el(x):
     return x
 
 
-def _compare(ctx, ds, model, uni, after):
+def _compare(ctx, ds, model, uni, after, iterate=True):
+    """iterate=False: the harness does NOT iterate the set at this point (len and membership only).  Observation is an
+    operation too: iterating after every step can refresh whatever an implementation derives lazily for iteration and so
+    hide its staleness from exactly this comparison; 'sparse' histories iterate only where the history says so."""
     ctx.check("C20.len")
     try:
         n = len(ds)
-        items = list(ds)
+        items = list(ds) if iterate else None
     except Exception as e:
         ctx.violate("C20.raised", f"len/iter raised {describe_exc(e)} after {after}")
         return False
@@ -122,8 +127,9 @@ def _compare(ctx, ds, model, uni, after):
     if n != len(model):
         ctx.violate("C20.len", f"len={n} model={len(model)} after {after}")
         ok = False
-    ctx.check("C20.iter")
-    if len(items) != len(set(items)) or set(items) != model:
+    if iterate:
+        ctx.check("C20.iter")
+    if iterate and (len(items) != len(set(items)) or set(items) != model):
         ctx.violate("C20.iter", f"iteration {sorted(map(repr, items))} model {sorted(map(repr, model))} after {after}")
         ok = False
     ctx.check("C20.contains")
@@ -355,9 +361,12 @@ def execute(sc, ctx):
             pass  # membership over the whole universe is compared below after every operation
         elif op == "iter":
             pass
-        if not _compare(ctx, ds, model, uni, after):
+        sparse = sc.get("observe") == "sparse"
+        if not _compare(ctx, ds, model, uni, after, iterate=(not sparse) or op == "iter" or k == len(sc["ops"]) - 1):
             return
         ctx.result(op, len(model))
+    if sc.get("observe") == "sparse":
+        ctx.probe("sparse_observation_history")
     ctx.mutations = mutations
 
 
